@@ -1,4 +1,5 @@
 import SamplyModel.Lemmas.LifeSim
+import SamplyModel.Lemmas.ConvThread
 /-!
 The converter's record handlers preserve the simulation relation of `Lemmas/LifeSim.lean` (C17).
 -/
@@ -627,16 +628,33 @@ theorem sim_ensure {s : St} {l : Life.S} (h : Sim s l) (pid tid : Nat) :
   rw [ensureThread_ensureProc hc] at h2
   exact ⟨h2, hb2, hh2.trans hh1, ht2, hfr⟩
 
+theorem Sim.setBad {s : St} {l : Life.S} (h : Sim s l) (b : Bool) : Sim { s with bad := b } l :=
+  ⟨⟨h.tab.cur, h.tab.ref, h.tab.reuse, h.tab.pents, h.tab.tents, h.tab.upids, h.tab.utids⟩, h.live⟩
+
+/-- a record that looks its thread up on demand and then only rewrites fields of that thread object which
+carry no lifecycle information (dedup timestamp, context-switch data, off-CPU stack) and the sample buffer -/
+theorem sim_commit {s : St} {l : Life.S} (h : Sim s l) (pid tid : Nat)
+    (f : St → ThreadC → ThreadC × List USample × Bool)
+    (hf : ∀ s2 th, (f s2 th).1.h = th.h ∧ (f s2 th).1.name = th.name) :
+    Sim (commitThread (getThread (getByPid s pid).1 (getByPid s pid).2 tid).1
+          (getThread (getByPid s pid).1 (getByPid s pid).2 tid).2.1 tid
+          (f (getThread (getByPid s pid).1 (getByPid s pid).2 tid).1
+             (getThread (getByPid s pid).1 (getByPid s pid).2 tid).2.2))
+      (Life.ensureThread l pid tid) := by
+  obtain ⟨h2, hb2, _, ht2, _⟩ := sim_ensure h pid tid
+  generalize getThread (getByPid s pid).1 (getByPid s pid).2 tid = gt at *
+  unfold commitThread
+  refine (h2.setBad _).touch hb2 (PEq.trans (PEq.putThread (tid := tid) (th := gt.2.2)
+    (th' := (f gt.1 gt.2.2).1) ?_ (hf _ _).1 (hf _ _).2) (PEq.of_same rfl rfl rfl rfl rfl))
+  rw [(h2.live.ok hb2).pid_eq]
+  exact ht2
+
 theorem step_sample (s : St) (pid tid t : Nat) (km : Bool) (period ip : Nat) (chain : List Nat) :
     step s (.sample pid tid t km period ip chain) =
       if tid = 0 then s else
       let gt := getThread (getByPid { s with cur := t } pid).1 (getByPid { s with cur := t } pid).2 tid
       if gt.2.2.lastTs = some t then gt.1 else
-      let p := putThread gt.2.1 tid { gt.2.2 with lastTs := some t }
-      putProc gt.1 { p with samples := p.samples ++
-        [{ th := gt.2.2.h, t := conv gt.1 t, tmono := t, cpu := period,
-           stack := sampleStack gt.1.cfg km ip chain, tlabel := threadLabel gt.2.2.name pid tid,
-           gpid := pid, gtid := tid }] } := rfl
+      commitThread gt.1 gt.2.1 tid (sampleThread gt.1 gt.2.2 pid tid t period (sampleStack gt.1.cfg km ip chain)) := rfl
 
 theorem sim_sample {s : St} {l : Life.S} (h : Sim s l) (pid tid t : Nat) (km : Bool) (period ip : Nat)
     (chain : List Nat) :
@@ -646,13 +664,59 @@ theorem sim_sample {s : St} {l : Life.S} (h : Sim s l) (pid tid t : Nat) (km : B
   by_cases h0 : tid = 0
   · rw [if_pos h0, if_pos h0]; exact h
   · rw [if_neg h0, if_neg h0]
-    obtain ⟨h2, hb2, _, ht2, _⟩ := sim_ensure (h.setCur t) pid tid
+    have hc := sim_commit (h.setCur t) pid tid
+      (fun s2 th => sampleThread s2 th pid tid t period (sampleStack s2.cfg km ip chain))
+      (fun s2 th => by
+        obtain ⟨a, _, c, _⟩ := sampleThread_spec s2 th pid tid t period (sampleStack s2.cfg km ip chain)
+        exact ⟨a, c⟩)
+    obtain ⟨h2, _⟩ := sim_ensure (h.setCur t) pid tid
     generalize getThread (getByPid { s with cur := t } pid).1 (getByPid { s with cur := t } pid).2 tid = gt at *
     split
     · exact h2
-    · refine h2.touch hb2 (PEq.trans (PEq.putThread (tid := tid) (th := gt.2.2) (th' := { gt.2.2 with lastTs := some t }) ?_ rfl rfl) (PEq.of_same rfl rfl rfl rfl rfl))
-      rw [(h2.live.ok hb2).pid_eq]
-      exact ht2
+    · exact hc
+
+/-! ### One record: context switches, sched_switch samples -/
+
+theorem sim_switchIn {s : St} {l : Life.S} (h : Sim s l) (pid tid t : Nat) :
+    Sim (step s (.switchIn pid tid t)) (Life.step l (.switchIn pid tid t)) := by
+  have e : step s (.switchIn pid tid t) = if tid = 0 then s else
+      commitThread (getThread (getByPid s pid).1 (getByPid s pid).2 tid).1
+        (getThread (getByPid s pid).1 (getByPid s pid).2 tid).2.1 tid
+        (wake (getThread (getByPid s pid).1 (getByPid s pid).2 tid).1
+          (getThread (getByPid s pid).1 (getByPid s pid).2 tid).2.2 (.switchIn t) pid tid) := rfl
+  rw [e]
+  simp only [Life.step]
+  split
+  · exact h
+  · exact sim_commit h pid tid (fun s2 th => wake s2 th (.switchIn t) pid tid)
+      (fun s2 th => by obtain ⟨a, _, c, _⟩ := wake_spec s2 th (.switchIn t) pid tid; exact ⟨a, c⟩)
+
+theorem sim_switchOut {s : St} {l : Life.S} (h : Sim s l) (pid tid t : Nat) :
+    Sim (step s (.switchOut pid tid t)) (Life.step l (.switchOut pid tid t)) := by
+  have e : step s (.switchOut pid tid t) = if tid = 0 then s else
+      commitThread (getThread (getByPid s pid).1 (getByPid s pid).2 tid).1
+        (getThread (getByPid s pid).1 (getByPid s pid).2 tid).2.1 tid
+        (switchOutThread (getThread (getByPid s pid).1 (getByPid s pid).2 tid).1
+          (getThread (getByPid s pid).1 (getByPid s pid).2 tid).2.2 t) := rfl
+  rw [e]
+  simp only [Life.step]
+  split
+  · exact h
+  · exact sim_commit h pid tid (fun s2 th => switchOutThread s2 th t) (fun s2 th => ⟨rfl, rfl⟩)
+
+theorem sim_sched {s : St} {l : Life.S} (h : Sim s l) (pid tid t : Nat) (km : Bool) (ip : Nat) (chain : List Nat) :
+    Sim (step s (.sched pid tid t km ip chain)) (Life.step l (.sched pid tid t km ip chain)) := by
+  have e : step s (.sched pid tid t km ip chain) =
+      commitThread (getThread (getByPid s pid).1 (getByPid s pid).2 tid).1
+        (getThread (getByPid s pid).1 (getByPid s pid).2 tid).2.1 tid
+        (schedThread (getThread (getByPid s pid).1 (getByPid s pid).2 tid).1
+          (getThread (getByPid s pid).1 (getByPid s pid).2 tid).2.2 t
+          (sampleStack (getThread (getByPid s pid).1 (getByPid s pid).2 tid).1.cfg km ip chain)) := rfl
+  rw [e]
+  simp only [Life.step]
+  exact sim_commit h pid tid (fun s2 th => schedThread s2 th t (sampleStack s2.cfg km ip chain))
+    (fun s2 th => by
+      obtain ⟨a, _, c, _⟩ := schedThread_spec s2 th t (sampleStack s2.cfg km ip chain); exact ⟨a, c⟩)
 
 /-! ### One record: MMAP2 -/
 
@@ -801,6 +865,9 @@ theorem sim_step {s : St} {l : Life.S} (h : Sim s l) (r : Rec) (hok : forkOk l r
   | exit pid tid t => exact sim_exit h pid tid t
   | comm pid tid name isExec t => exact sim_comm h pid tid name isExec t hok
   | mmap2 pid tid addr len pgoff exec path t => exact sim_mmap2 h pid tid addr len pgoff exec path t
+  | switchIn pid tid t => exact sim_switchIn h pid tid t
+  | switchOut pid tid t => exact sim_switchOut h pid tid t
+  | sched pid tid t km ip chain => exact sim_sched h pid tid t km ip chain
 
 theorem gStep_s (g : Life.G) (r : Rec) : (Life.gStep g r).s = Life.step g.s r := rfl
 
@@ -813,6 +880,9 @@ theorem gStep_ok {g : Life.G} {r : Rec} (h : (Life.gStep g r).ok = true) : g.ok 
   | sample pid tid t km period ip chain => trivial
   | exit pid tid t => trivial
   | mmap2 pid tid addr len pgoff exec path t => trivial
+  | switchIn pid tid t => trivial
+  | switchOut pid tid t => trivial
+  | sched pid tid t km ip chain => trivial
   | comm pid tid name isExec t =>
     simp only [forkOk]
     intro he
